@@ -30,6 +30,9 @@ def run(ctx, rep):
         wl, wo = RD.iterator_roles(fx, rep, "C03.3", impl)
         if wo:
             RD.check_without_lines(fx, rep, "C03.3", impl, wo, "C03.3")
+    import api_rules as AR
+    AR.check_frame_api(fx, rep, "C03.api")
+    AR.check_mapper_constructors(fx, rep, "C03.0")
     R1.check_remap_frame_mapper(fx, rep, "C03.4")
     LR.check_frame_comparators(fx, rep, "C03.4")
     LR.check_section_slices(fx, rep, "C03.4")
